@@ -9,7 +9,7 @@ golibs policy is in the model; the invariant proofs do not depend on what
 `Set` evicts or rejects, so they hold for every cache size).
 Environment assumptions are spelled out in `OpOK` (AGH/Lemmas/HashPrefixHistory).
 -/
-import AGH.Lemmas.HashPrefixHistory
+import AGH.Lemmas.HashPrefixCodec
 namespace AGH.C19
 open AGH AGH.Bytes
 
@@ -193,6 +193,74 @@ theorem C19_model_meets_spec (cf : Conf) (ops : List Op) (w : World)
       rw [hb b hvd]
       simp
 
+/-- **The bytes on the wire are a function of the prefixes only**: the TXT
+question name is, byte for byte, one label of four lower-case hex digits and
+a dot per requested prefix, followed by the configured service suffix — at
+most four such labels, 5·n + |suffix| bytes; no other byte of the queried name
+or of its hashes enters it (see `C19_privacy` for which prefixes). -/
+theorem C19_wire_discloses_prefixes_only (suffix : Bytes) (H : Bytes → Hash) (ps : Bytes) (icann : Bool)
+    (host : Bytes) (hlen : ∀ s, (H s).length = 32) (toReq : List Hash)
+    (hsub : toReq.Sublist (hostnameToHashes H ps icann host)) :
+    getQuestion suffix toReq = (toReq.flatMap (fun h => hexBytes (prefix2 h) ++ [dot])) ++ suffix ∧
+    (getQuestion suffix toReq).length = 5 * toReq.length + suffix.length ∧
+    toReq.length ≤ 4 ∧
+    ∀ h ∈ toReq, (hexBytes (prefix2 h)).length = 4 ∧ ∀ c ∈ hexBytes (prefix2 h), isLowerHex c = true := by
+  have hmem : ∀ h ∈ toReq, h.length = 32 := by
+    intro h hh
+    have := hsub.subset hh
+    simp only [hostnameToHashes, List.mem_map] at this
+    obtain ⟨s, _, rfl⟩ := this
+    exact hlen s
+  have h4 : ∀ h ∈ toReq, (hexBytes (prefix2 h)).length = 4 := by
+    intro h hh
+    rw [hexBytes_length, prefix2_length (hmem h hh)]
+  refine ⟨?_, ?_, Nat.le_trans hsub.length_le (C19_at_most_four H ps icann host), ?_⟩
+  · rw [getQuestion, questionOfPrefixes_eq, List.flatMap_map]
+  · rw [getQuestion, questionOfPrefixes_eq, List.flatMap_map, List.length_append, List.length_flatMap]
+    have : (toReq.map (fun h => (hexBytes (prefix2 h) ++ [dot]).length)) = toReq.map (fun _ => 5) := by
+      apply List.map_congr_left
+      intro h hh
+      simp [h4 h hh]
+    rw [this]
+    have hs : ∀ l : List Hash, (l.map (fun _ => 5)).sum = 5 * l.length := by
+      intro l
+      induction l with
+      | nil => rfl
+      | cons a l ih => simp only [List.map_cons, List.sum_cons, List.length_cons, ih]; omega
+    rw [hs]
+  · intro h hh
+    refine ⟨h4 h hh, ?_⟩
+    have hl := prefix2_length (hmem h hh)
+    generalize prefix2 h = p at hl
+    match p, hl with
+    | [x, y], _ =>
+      intro c hc
+      simp only [hexBytes_two, List.mem_cons, List.not_mem_nil, or_false] at hc
+      have hn : ∀ n, n < 16 → isLowerHex (hexNib n) = true := by decide
+      rcases hc with rfl | rfl | rfl | rfl <;> exact hn _ (Nat.mod_lt _ (by decide))
+
+/-- **The cache item round-trips**: `toCacheItem (fromCacheItem i) = i` (expiry
+as absolute Unix seconds below 2^64, hashes of 32 bytes). -/
+theorem C19_cache_item_codec (base : Nat) (it : Item) (hexp : base + it.exp < 2 ^ 64)
+    (hl : ∀ h ∈ it.hs, h.length = 32) :
+    decodeItem (encodeItem base it) = (base + it.exp, it.hs) :=
+  decode_encode_item base it hexp hl
+
+/-- **Expiry boundary**: an item is still used at the very instant of its
+expiry second and no longer one nanosecond later. -/
+theorem C19_expiry_boundary (it : Item) :
+    expired (it.exp * nsPerSec) it = false ∧ expired (it.exp * nsPerSec + 1) it = true := by
+  simp [expired]
+
+/-- the model's constants are those of hashprefix.go (fact line `C19.consts`) -/
+theorem C19_constants :
+    (∀ h : Hash, prefix2 h = h.take prefixLen) ∧ hexSize = 2 * hashSize ∧
+    (∀ host, lastLabels host = (takeLabelsRev subDomainNum host.reverse).reverse) ∧
+    (∀ t : Bytes, t.length ≠ hexSize → parseTXT t = none) := by
+  refine ⟨fun _ => rfl, rfl, fun _ => rfl, fun t h => ?_⟩
+  simp only [hexSize] at h
+  simp [parseTXT, h]
+
 /-! ### in front of the checkers: `DNSFilter.CheckHost` -/
 
 /-- **Letter case of the query name is irrelevant**: names that lower-case to
@@ -298,6 +366,23 @@ example : (doCheck exCf exW exOp).1 = ⟨.blocked true, some (getQuestion exCf.s
   decide
 
 example : freshVerdict exOp.H exDb exOp.ps exOp.icann exOp.host = true := by decide
+
+/-! clause by clause on public-suffix-list shapes (oracle values as the PSL gives them) -/
+
+/-- a name that IS an ICANN public suffix (`co.uk`): nothing is hashed, nothing asked -/
+example : hashedNames [99, 111, 46, 117, 107] true [99, 111, 46, 117, 107] = [] := by decide
+/-- wildcard rule `*.ck`: for `a.b.ck` the suffix is `b.ck`; only `a.b.ck` is hashed -/
+example : hashedNames [98, 46, 99, 107] true [97, 46, 98, 46, 99, 107] = [[97, 46, 98, 46, 99, 107]] := by decide
+/-- exception rule `!www.ck`: the suffix of `www.ck` is `ck`; `www.ck` is hashed -/
+example : hashedNames [99, 107] true [119, 119, 119, 46, 99, 107] = [[119, 119, 119, 46, 99, 107]] := by decide
+/-- a single label that is no ICANN suffix (`localhost`): hashed as it is -/
+example : hashedNames [108, 111, 99, 97, 108, 104, 111, 115, 116] false [108, 111, 99, 97, 108, 104, 111, 115, 116] = [[108, 111, 99, 97, 108, 104, 111, 115, 116]] := by decide
+/-- private suffix (`github.io` is not ICANN): the whole private space down to the TLD -/
+example : hashedNames [103, 105, 116, 104, 117, 98, 46, 105, 111] false [117, 115, 101, 114, 46, 103, 105, 116, 104, 117, 98, 46, 105, 111] =
+    [[117, 115, 101, 114, 46, 103, 105, 116, 104, 117, 98, 46, 105, 111], [103, 105, 116, 104, 117, 98, 46, 105, 111], [105, 111]] := by decide
+/-- punycode labels are plain ASCII labels -/
+example : hashedNames [120, 110, 45, 45, 112, 49, 97, 105] true [120, 110, 45, 45, 101, 49, 97, 102, 109, 107, 102, 100, 46, 120, 110, 45, 45, 112, 49, 97, 105] =
+    [[120, 110, 45, 45, 101, 49, 97, 102, 109, 107, 102, 100, 46, 120, 110, 45, 45, 112, 49, 97, 105]] := by decide
 
 /-- a.b.c.d.co.uk (ICANN suffix co.uk): two names are hashed, not four -/
 example : hashedNames [99, 111, 46, 117, 107] true
